@@ -328,7 +328,8 @@ void MEDDLY::pregen_relation::unionLevels()
     apply(UNION, u, events[k], u);
     events[k].set(0);
   }
-  events[u.getLevel()] = u;
+  // The top node can be at a primed level (redundant unprimed level)
+  events[ABS(u.getLevel())] = u;
 }
 
 
